@@ -141,6 +141,13 @@ pub fn child(_ctx: &Ctx, rest: &[String]) -> i32 {
                 let _ = mdk.merge_pending_commit(&gid);
             }
         }
+        "create_group" => {
+            let kps: Vec<Event> = std::fs::read_to_string(&rest[3]).expect("kp file").lines().filter(|l| !l.trim().is_empty()).map(|l| Event::from_json(l).expect("kp json")).collect();
+            let creator = nostr::PublicKey::from_hex(&rest[4]).expect("creator pk");
+            if let Ok(r) = mdk.create_group(&creator, kps, new_group_config(creator)) {
+                let _ = std::fs::write(format!("{}.published", db.display()), hex::encode(r.group.mls_group_id.as_slice()));
+            }
+        }
         _ => return 2,
     }
     set_tick_hook(None);
@@ -149,6 +156,10 @@ pub fn child(_ctx: &Ctx, rest: &[String]) -> i32 {
         let _ = std::fs::write(format!("{}.labels", db.display()), labels.lock().unwrap().join("\n"));
     }
     0
+}
+
+fn new_group_config(creator: nostr::PublicKey) -> NostrGroupConfigData {
+    NostrGroupConfigData::new("created-under-fire".into(), "second group of the subject".into(), None, None, None, vec![relay(0), relay(2)], vec![creator])
 }
 
 // --------------------------------------------------------------------------------------------
@@ -164,9 +175,10 @@ enum Template {
     Welcome,
     CreateMessage,
     SelfUpdateMerge,
+    CreateGroup,
 }
 
-const TEMPLATES: [Template; 7] = [Template::AppMessage, Template::Proposal, Template::Commit, Template::CommitWithRollback, Template::Welcome, Template::CreateMessage, Template::SelfUpdateMerge];
+const TEMPLATES: [Template; 8] = [Template::AppMessage, Template::Proposal, Template::Commit, Template::CommitWithRollback, Template::Welcome, Template::CreateMessage, Template::SelfUpdateMerge, Template::CreateGroup];
 
 struct Prepared {
     w: World,
@@ -333,6 +345,20 @@ fn prepare(t: Template, i: u64, rng: &mut Rng, dir: &Path) -> Option<Prepared> {
             for c in [a, p, q] {
                 w.deliver(c, idx, OwnMode::Echo);
             }
+        }
+        Template::CreateGroup => {
+            // the subject creates a SECOND group with the admin and the peer (their key packages
+            // exist before the databases are copied, so the peer copy can join later)
+            let kps = vec![w.clients[a].key_package_event(), w.clients[p].key_package_event()];
+            copy_db(&s_db, &pre_s);
+            copy_db(&p_db, &pre_p);
+            let kf = sub.join("kps.jsonl");
+            std::fs::write(&kf, kps.iter().map(|e| e.as_json() + "\n").collect::<String>()).unwrap();
+            let spk = w.clients[s].pk();
+            mode = vec!["create_group".into(), kf.to_string_lossy().into(), spk.to_hex()];
+            let (r, l) = count_ticks(|| with_mdk!(w.clients[s].mdk, x => x.create_group(&spk, kps.clone(), new_group_config(spk))));
+            labels = l;
+            r.ok()?;
         }
         Template::SelfUpdateMerge => {
             copy_db(&s_db, &pre_s);
@@ -576,6 +602,74 @@ fn run_case(prop: &str, t: Template, i: u64, rng: &mut Rng, out: &mut Outcome, d
                         if fp != pr.twin_fp {
                             let parts = pr.twin_fp.diff(&fp);
                             verdict = Some((format!("differs-from-uninterrupted-run|parts={}", parts.join("+")), format!("{}: twin `{}` vs crashed `{}`", parts[0], crate::util::short(pr.twin_fp.part(parts[0]), 300), crate::util::short(fp.part(parts[0]), 300))));
+                        }
+                    }
+                }
+                Template::CreateGroup => {
+                    let pubf = format!("{}.published", cut_db.display());
+                    let _ = std::fs::remove_file(&pubf);
+                    // redo the operation (whatever the interrupted attempt left behind must not be in the way)
+                    let kps: Vec<Event> = std::fs::read_to_string(&pr.mode[1]).unwrap_or_default().lines().filter(|l| !l.trim().is_empty()).filter_map(|l| Event::from_json(l).ok()).collect();
+                    let spk = keys.public_key();
+                    mdk_core::verif::set_created_at(Some(pr.w.t + 10));
+                    let redo = with_mdk!(pr.w.clients[tix].mdk, x => x.create_group(&spk, kps.clone(), new_group_config(spk)));
+                    match redo {
+                        Err(e) => verdict = Some(("operation-cannot-be-redone".into(), format!("create_group after the crash: {e}"))),
+                        Ok(res) => {
+                            let ngid = res.group.mls_group_id.clone();
+                            if let Err(e) = loads_ok(&pr.w.clients[tix], &ngid, true) {
+                                verdict = Some(("group-does-not-load".into(), format!("after redoing create_group: {e}")));
+                            }
+                            // a fresh copy of the peer joins through its welcome and the two talk
+                            let p_db = pr.pre_p.with_file_name(format!("peer-{k}.db"));
+                            copy_db(&pr.pre_p, &p_db);
+                            let pst = MdkSqliteStorage::new_unencrypted(&p_db).expect("peer copy");
+                            let peer = MDK::builder(pst).with_config(cfg.clone()).build();
+                            let mut joined = false;
+                            for (wi, rumor) in res.welcome_rumors.iter().enumerate() {
+                                let wid = EventId::from_byte_array(Rng::new((k * 131 + wi) as u64).bytes::<32>());
+                                if let Ok(wl) = peer.process_welcome(&wid, rumor) {
+                                    joined = peer.accept_welcome(&wl).is_ok();
+                                    if joined {
+                                        break;
+                                    }
+                                }
+                            }
+                            if verdict.is_none() && !joined {
+                                verdict = Some(("peer-cannot-join-the-recreated-group".into(), "no welcome of the redone create_group could be processed and accepted by the peer".into()));
+                            }
+                            if verdict.is_none() {
+                                let sk = pr.w.clients[tix].state(pr.g, &ngid);
+                                let pk = crate::sim::fp::state_key(&peer, pr.g, &ngid);
+                                if sk.as_ref().map(|x| (x.1, x.2.clone())) != pk.as_ref().map(|x| (x.1, x.2.clone())) {
+                                    verdict = Some(("subject-and-peer-do-not-reconverge|new-group".into(), format!("subject {:?} vs peer {:?}", sk.map(|x| (x.1, x.2[..6].to_string())), pk.map(|x| (x.1, x.2[..6].to_string())))));
+                                } else {
+                                    let mut rumor: UnsignedEvent = EventBuilder::new(Kind::Custom(9), format!("hello-new-group-{i}-{k}")).custom_created_at(Timestamp::from(pr.w.base_ts + 700)).build(spk);
+                                    rumor.ensure_id();
+                                    match with_mdk!(pr.w.clients[tix].mdk, x => x.create_message(&ngid, rumor)) {
+                                        Ok(ev) => {
+                                            let r = peer.process_message(&ev);
+                                            if !matches!(r, Ok(MessageProcessingResult::ApplicationMessage(_))) {
+                                                verdict = Some(("peer-cannot-read-subject-in-recreated-group".into(), result_class(&r)));
+                                            }
+                                        }
+                                        Err(e) => verdict = Some(("subject-cannot-send-in-recreated-group".into(), e.to_string())),
+                                    }
+                                }
+                            }
+                            drop(peer);
+                            rm_db(&p_db);
+                        }
+                    }
+                    // the old group is untouched: later events of its peers still process to the twin's state
+                    if verdict.is_none() {
+                        for idx in pr.later.clone() {
+                            pr.w.deliver(tix, idx, OwnMode::Echo);
+                        }
+                        let fp = pr.w.clients[tix].fp(&gid);
+                        if fp != pr.twin_fp {
+                            let parts = pr.twin_fp.diff(&fp);
+                            verdict = Some((format!("old-group-differs-from-uninterrupted-run|parts={}", parts.join("+")), format!("{}: twin `{}` vs crashed `{}`", parts[0], crate::util::short(pr.twin_fp.part(parts[0]), 300), crate::util::short(fp.part(parts[0]), 300))));
                         }
                     }
                 }
@@ -897,13 +991,13 @@ pub fn run(ctx: &Ctx) -> i32 {
         Floor { what: "in-process transaction faults", have: out.get("in_process_txn_faults"), need: 100 },
         Floor { what: "distinct transaction fault points", have: out.sets.get("txn_fault_points").map(|s| s.len()).unwrap_or(0) as u64, need: 26 },
         Floor { what: "cuts executed", have: out.get("cuts"), need: ctx.tier.pick(100, 1500) },
-        Floor { what: "templates", have: out.sets.get("templates").map(|s| s.len()).unwrap_or(0) as u64, need: 7 },
+        Floor { what: "templates", have: out.sets.get("templates").map(|s| s.len()).unwrap_or(0) as u64, need: 8 },
         Floor { what: "distinct tick labels cut at", have: out.sets.get("cut_labels").map(|s| s.len()).unwrap_or(0) as u64, need: 40 },
     ];
     finish(
         ctx,
         "fault_enumeration",
-        "for 7 operation templates (process_message of an application message / a leave proposal / a commit / a better commit that forces a rollback; process_welcome + accept_welcome; create_message; self_update + merge_pending_commit) a pilot run records every storage tick (H2: one per SQL statement boundary, labelled with the trait method; extra labelled ticks inside the snapshot / restore transactions). For each selected tick k a child process re-opens a copy of the pre-operation database and is killed with abort() at tick k; the parent re-opens the file (must open, every group must load), re-delivers the interrupted event and all later events and compares the fingerprint with the uninterrupted twin (receiver operations), or redoes the operation and lets a fresh copy of a peer process the result (own operations). Every tick of every template instance is cut (quick: 4 instances per template, thorough: 16, with varying commit kinds). In addition, inside the two explicit transactions (snapshot creation, restore) an in-process hook injects a storage error or a panic at each labelled point: the transaction must roll back completely (group fingerprint and snapshot set unchanged, group still usable). distinct = distinct (template, label, k) / (fault point, variant)",
+        "for 8 operation templates (process_message of an application message / a leave proposal / a commit / a better commit that forces a rollback; process_welcome + accept_welcome; create_message; self_update + merge_pending_commit; create_group of a second group) a pilot run records every storage tick (H2: one per SQL statement boundary, labelled with the trait method; extra labelled ticks inside the snapshot / restore transactions). For each selected tick k a child process re-opens a copy of the pre-operation database and is killed with abort() at tick k; the parent re-opens the file (must open, every group must load), re-delivers the interrupted event and all later events and compares the fingerprint with the uninterrupted twin (receiver operations), or redoes the operation and lets a fresh copy of a peer process the result (own operations). Every tick of every template instance is cut (quick: 4 instances per template, thorough: 16, with varying commit kinds). In addition, inside the two explicit transactions (snapshot creation, restore) an in-process hook injects a storage error or a panic at each labelled point: the transaction must roll back completely (group fingerprint and snapshot set unchanged, group still usable). distinct = distinct (template, label, k) / (fault point, variant)",
         out,
         floors,
         vec![
